@@ -145,6 +145,11 @@ func (e *Eval) evalWhileStmt(w *ast.WhileStmt, env *Env) (Obj, error) {
 			return nil, err
 		}
 
+		// a return inside the loop leaves the loop (and the enclosing function)
+		if _, ok := res.(*retval); ok {
+			return res, nil
+		}
+
 		// if result is a break stmt, stop loo
 		if t, ok := res.(*ctrl); ok && t.typ == ast.CtrlBreak {
 			break
@@ -156,7 +161,9 @@ func (e *Eval) evalWhileStmt(w *ast.WhileStmt, env *Env) (Obj, error) {
 func (e *Eval) evalForStmt(f *ast.ForStmt, env *Env) (Obj, error) {
 	scope := NewEnv(env)
 	if f.Init != nil {
-		e.evalStmt(f.Init, scope)
+		if _, err := e.evalStmt(f.Init, scope); err != nil {
+			return nil, err
+		}
 	}
 
 	for {
@@ -177,13 +184,20 @@ func (e *Eval) evalForStmt(f *ast.ForStmt, env *Env) (Obj, error) {
 			return nil, err
 		}
 
+		// a return inside the loop leaves the loop (and the enclosing function)
+		if _, ok := res.(*retval); ok {
+			return res, nil
+		}
+
 		// if result is a break stmt, stop loo
 		if t, ok := res.(*ctrl); ok && t.typ == ast.CtrlBreak {
 			break
 		}
 
 		if f.Post != nil {
-			e.evalStmt(f.Post, scope)
+			if _, err := e.evalStmt(f.Post, scope); err != nil {
+				return nil, err
+			}
 		}
 	}
 	return &null{}, nil
